@@ -85,6 +85,20 @@ def run(chk):
                    points=mlim[1:-1], limit=200, epsabs=0, epsrel=1e-10)[0]
         if not abs(tot - 1) <= 1e-7:
             chk.fail("density integrates to one", sp, dict(integral=tot))
+        # eval(x, N0) is N0 times the density, and neither it nor integral() changes the object (sequence of calls on one object)
+        snapK = (np.array(K._C, dtype=float).copy(), float(K._norm), np.array(K._a, dtype=float).copy(), np.array(K._mlim, dtype=float).copy())
+        xq = mlim[0] * (mlim[-1] / mlim[0]) ** rng.random()
+        base = float(K.eval(xq)[0])
+        n0 = rng.choice([3e5, 2.0, 0.5, 17])
+        scaled = float(K.eval(xq, N0=n0)[0])
+        again = float(K.eval(xq)[0])
+        if abs(scaled - n0 * base) > 1e-12 * abs(n0 * base) or again != base:
+            chk.fail("eval(x, N0) is N0 times the density and leaves later evaluations unchanged", dict(sp, x=xq, N0=n0),
+                     dict(density=base, scaled=scaled, density_afterwards=again))
+        K.integral(mlim[0], mlim[-1])
+        snapK2 = (np.array(K._C, dtype=float), float(K._norm), np.array(K._a, dtype=float), np.array(K._mlim, dtype=float))
+        if not (np.array_equal(snapK[0], snapK2[0]) and snapK[1] == snapK2[1] and np.array_equal(snapK[2], snapK2[2]) and np.array_equal(snapK[3], snapK2[3])):
+            chk.fail("evaluating or integrating the density does not change the object", sp, dict(C_before=snapK[0].tolist(), C_after=snapK2[0].tolist()))
         # sub-ranges
         subs = []
         for _ in range(4):
